@@ -273,6 +273,34 @@ fn run_case(c: &Case, rep: &mut CaseReport) -> Verdict {
         if j.rows.len() != u.rows.len() || j.rows.len() != a.rows.len() {
             return Verdict::fail("row-number-differs", json!({"cmd": q, "json": j.rows.len(), "unix": u.rows.len(), "arrow": a.rows.len(), "log": w.db.log}));
         }
+        // LIMIT without ORDER BY admits any n of the matching rows, and the three dispatches are three executions:
+        // only the rows that two answers have in common (by event_id) are compared cell by cell
+        let partial = q.contains(" LIMIT ") && !q.contains("ORDER BY");
+        if partial {
+            if let Some(kc) = j.columns.iter().position(|c| c == "event_id") {
+                let idx = |rows: &Vec<Vec<Value>>| -> std::collections::BTreeMap<u64, Vec<Value>> { rows.iter().filter_map(|r| r[kc].as_u64().or(r[kc].as_i64().map(|v| v as u64)).map(|id| (id, r.clone()))).collect() };
+                let (mj, mu, ma) = (idx(&j.rows), idx(&u.rows), idx(&a.rows));
+                for (id, rj) in &mj {
+                    if let Some(ru) = mu.get(id) {
+                        if canon(&vec![rj.clone()]) != canon(&vec![ru.clone()]) {
+                            return Verdict::fail("cells-differ:json-vs-text", json!({"cmd": q, "json": rj, "unix": ru, "log": w.db.log}));
+                        }
+                    }
+                    if let Some(ra) = ma.get(id) {
+                        for (ci, (cj, ca)) in rj.iter().zip(ra.iter()).enumerate() {
+                            if !cells_equal(cj, ca) {
+                                return Verdict::fail("cells-differ:json-vs-arrow", json!({"cmd": q, "column": j.columns[ci], "json_cell": cj, "arrow_cell": ca, "json_row": rj, "arrow_row": ra, "log": w.db.log}));
+                            }
+                        }
+                    }
+                }
+                if !j.rows.is_empty() {
+                    rep.nontrivial = true;
+                }
+                rep.label("result:selection-with-limit");
+                continue;
+            }
+        }
         if canon(&j.rows) != canon(&u.rows) {
             return Verdict::fail("cells-differ:json-vs-text", json!({"cmd": q, "json": j.rows, "unix": u.rows, "log": w.db.log}));
         }
